@@ -23,6 +23,7 @@ RULE = (
     'identically" tracks x frames {8,9,16} x LATTICES (incl. a left-handed cell) x k in {0.5,2,3.7,1e-4,1e3} x s in {0.5,2,10} x z in {1,2,-1,3} x '
     'dimensions {1,2,3} x T in {100,300,1000} x parts {1,2,3} and {T-3,T-1} (single-frame parts); evaluation = one metric value compared; distinct = '
     'distinct (track, lattice, metric values) tuples'
+    '; mean/std conductivity over a list of two runs with different cell and temperature, both orders'
 )
 LEVEL_TEXT = (
     'Complete product of the listed alphabets; every metric (density, molarity, tracer and centre-of-mass '
